@@ -32,7 +32,7 @@ def print_assumptions(ck, prop, thm_file, rundir):
     if rc == 0:
         for line in o.split("\n"):
             m = re.match(r"^([A-Za-z_][A-Za-z0-9_.']*)\s*:", line)
-            if m and not line.startswith(" "):
+            if m and not line.startswith(" ") and m.group(1) not in ("Axioms", "Closed"):
                 axioms.append(m.group(1))
     return rc == 0, o, sorted(set(axioms))
 
